@@ -7,8 +7,8 @@ git diff --stat -- src | tail -1
 echo "== suite with mutant:"; cargo test --workspace --offline 2>&1 | grep -E "^test result" | head -3
 mkdir -p tests; cp demo/*.rs tests/ 2>/dev/null
 T=$(ls demo/*.rs | head -1 | xargs -n1 basename | sed 's/\.rs$//')
-echo "== demo with mutant:"; cargo test --offline --test "$T" 2>&1 | grep -E "^test result|panicked|FAILED" | head -5
+echo "== demo with mutant:"; cargo test --offline --test "$T" 2>&1 | grep -E "^test result" | head -3
 git apply -R mutant.diff
-echo "== demo without mutant:"; cargo test --offline --test "$T" 2>&1 | grep -E "^test result|panicked|FAILED" | head -3
+echo "== demo without mutant:"; cargo test --offline --test "$T" 2>&1 | grep -E "^test result" | head -3
 git apply mutant.diff
 rm -rf tests
